@@ -7,7 +7,7 @@ import Vegeta.Model.Hit
 * urlinfo: ok str host errText
 * cfg: maxBody chunked redirectsApplied redirects name
 * exchange: nHops (resp stopPrefix)* finalTag (`0 text` | `1 resp`) chunks
-* resp: status statusText header body failAfter(-1 = none) readErr endWithData
+* resp: status statusText header body failAfter(-1 = none) readErr endWithData declaredLength
 -/
 namespace Vegeta.Driver.C06
 open Vegeta.Go Vegeta.Go.Proto Vegeta.Model.Hit
@@ -22,8 +22,9 @@ def pResp : P Resp := do
   let fa ← int
   let re ← bytes
   let ewd ← bool
+  let decl ← int
   pure { status := status, statusText := st, header := h, body := b,
-         failAfter := if fa < 0 then none else some fa.toNat, readErr := re, endWithData := ewd }
+         failAfter := if fa < 0 then none else some fa.toNat, readErr := re, endWithData := ewd, declared := decl }
 
 def pExchange : P Exchange := do
   let hops ← listOf (do let r ← pResp; let p ← bytes; pure ({ resp := r, stopPrefix := p } : Hop))
